@@ -43,6 +43,7 @@ func runSelftest(c *Ctx, verifDir string) {
 	// the pool of behaviour-preserving refactorings written by independent sub-agents for ALL
 	// properties: none of them may make THIS property's check fire
 	add(filepath.Join(verifDir, "neutral_pool", "*", "*.patch"), "pool")
+	add(filepath.Join(verifDir, "neutral_pool2", "*", "*.patch"), "pool")
 	if len(variants) == 0 {
 		return
 	}
@@ -65,7 +66,7 @@ func runSelftest(c *Ctx, verifDir string) {
 				name = filepath.Base(filepath.Dir(path))
 			}
 			if kind == "pool" {
-				name = "pool/" + filepath.Base(filepath.Dir(path)) + "/" + name
+				name = filepath.Base(filepath.Dir(filepath.Dir(path))) + "/" + filepath.Base(filepath.Dir(path)) + "/" + name
 			}
 			res := variantResult{Name: name, Kind: kind}
 			if kind == "seeded" {
